@@ -231,6 +231,12 @@ type Conn struct {
 	down   atomic.Bool // link down (controlled by the harness)
 	subs   []*Subscription
 	buf    []*Msg // published while the link is down
+
+	// connection-event handlers run one after another, in the order of the events, on one
+	// goroutine per connection (nats.go: the async callback dispatcher)
+	cbMu      sync.Mutex
+	cbQueue   []func()
+	cbRunning bool
 }
 
 // Connect connects to a registered bus.
@@ -286,7 +292,32 @@ func (nc *Conn) runHandler(h ConnHandler) {
 		h(nc)
 		return
 	}
-	go h(nc)
+	nc.enqueueCB(func() { h(nc) })
+}
+
+func (nc *Conn) enqueueCB(f func()) {
+	nc.cbMu.Lock()
+	nc.cbQueue = append(nc.cbQueue, f)
+	if nc.cbRunning {
+		nc.cbMu.Unlock()
+		return
+	}
+	nc.cbRunning = true
+	nc.cbMu.Unlock()
+	go func() {
+		for {
+			nc.cbMu.Lock()
+			if len(nc.cbQueue) == 0 {
+				nc.cbRunning = false
+				nc.cbMu.Unlock()
+				return
+			}
+			f := nc.cbQueue[0]
+			nc.cbQueue = nc.cbQueue[1:]
+			nc.cbMu.Unlock()
+			f()
+		}
+	}()
 }
 
 // ID returns the connection number on its bus (harness use).
@@ -787,7 +818,7 @@ func (nc *Conn) Close() {
 	if b.mode == Inline {
 		run()
 	} else {
-		go run()
+		nc.enqueueCB(run)
 	}
 }
 
